@@ -33,6 +33,9 @@ def build(spec):
             z.set_encoded_header_mode(False)
             for mi, n in enumerate(sizes):
                 name = "f%d/m%d.bin" % (fi, mi)
+                if spec.get("longname") and mi == 0:
+                    # a member name of tens of thousands of characters: an error object that carries it no longer fits a pipe buffer
+                    name = "f%d/%s%d.bin" % (fi, "\u4e2d" * int(spec["longname"]), mi)
                 data = G.expand(["gen", ["random", "text", "period"][(fi + mi) % 3], n, spec.get("seed", 0) * 97 + fi * 7 + mi])
                 z.writestr(data, name)
                 model[name] = data
@@ -94,7 +97,8 @@ class C13(Check):
             "position; output to a gated WriterFactory or to a directory; extractall or extract(T) with selections that leave the first or a middle folder without worker. Worker threads are parked at every create/write of the factory and "
             "released one at a time according to the schedule; for cases with few gate points all schedules are enumerated depth-first "
             "(capped), otherwise schedules are drawn by Hypothesis. k independent SevenZipFile objects on the same file extracted "
-            "concurrently are checked too. Oracle: every schedule and mode delivers exactly the model for intact archives; with a damaged "
+            "concurrently are checked too; testzip() instead of extraction in all three modes, also with member names of 30000 characters (a "
+            "worker's error object carries the name). Oracle: every schedule and mode delivers exactly the model for intact archives; with a damaged "
             "folder extract/extractall raises in every mode and schedule, and whatever was delivered for undamaged folders is correct. "
             "Non-trivial: >= 2 workers with >= 2 gate points each and a schedule that switches worker at least once; distinct by (archive "
             "shape, damage position, mode, schedule).")
@@ -140,6 +144,13 @@ class C13(Check):
                     if env.mine(i):
                         yield {"arch": sp, "mode": mode, "damage": dmg, "out": "path" if mode == "process" else "factory", "chunk": 64, "sched": [],
                                "concurrent_objects": 1}
+                # integrity test instead of extraction, with ordinary and very long member names (a worker's error carries the name)
+                for mode in ("threads", "process", "sequential"):
+                    for ln in (0, 30000):
+                        i += 1
+                        if env.mine(i):
+                            yield {"arch": dict(sp, longname=ln, chains=[0]) if ln else sp, "mode": mode, "damage": dmg, "out": "factory", "chunk": 64, "sched": [],
+                                   "concurrent_objects": 1, "op": "testzip"}
 
     # ------------------------------------------------------------------
     def execute(self, case, env):
@@ -169,9 +180,12 @@ class C13(Check):
                 out.label("damage-in-skipped-folder")
         mode = case["mode"]
         outk = "path" if mode == "process" else case["out"]
+        op = case.get("op", "extract")
+        if case["arch"].get("longname") and op != "testzip":
+            out.skipped = "longname-needs-testzip"
+            return out
         env.state["k"] += 1
-        work = os.path.join(env.scratch, "c13-%d" % env.state["k"])
-        os.makedirs(work)
+        work = env.tmpdir("c13-")  # unique: a replacement sandbox child must not collide with a killed one
         apath = os.path.join(work, "a.7z")
         with open(apath, "wb") as f:
             f.write(D)
@@ -180,13 +194,20 @@ class C13(Check):
         out.label("mode:" + mode, "out:" + outk, "damage:" + ("none" if dmg is None else ("first" if dmg == 0 else ("last" if dmg == nf - 1 else "middle"))),
                   "folders=%d" % nf)
         sig = {"mode": mode, "out": outk, "damaged": dmg is not None, "targets": T is not None}
+        if op == "testzip":
+            sig["op"] = "testzip"
+            sig["longname"] = bool(case["arch"].get("longname"))
+            out.label("op:testzip", "longname" if case["arch"].get("longname") else "shortname")
         if dmg is not None:
             sig["position"] = "first" if dmg == 0 else ("last" if dmg == nf - 1 else "middle")
         nsched = 0
         switched = False
         try:
             with patches.memory_limit(case["chunk"]):
-                if mode == "threads" and outk == "factory":
+                if op == "testzip":
+                    self._run_testzip(apath, D, build(case["arch"])[1], folder_of, dmg, mode, out, sig)
+                    nsched = 1
+                elif mode == "threads" and outk == "factory":
                     schedule = [] if case["sched"] == "dfs" else list(case["sched"])
                     cap = 250 if env.quick else 1500
                     while True:
@@ -323,6 +344,26 @@ class C13(Check):
                     with open(p, "rb") as f:
                         got[n] = f.read()
         self._judge(out, sig, raised, got, model, folder_of, dmg)
+
+    def _run_testzip(self, apath, D, model, folder_of, dmg, mode, out, sig):
+        """testzip() in each mode: None for an intact archive, a member of the damaged folder (or an exception) otherwise; a
+        call that never returns is caught by the sandbox watchdog"""
+        try:
+            if mode == "sequential":
+                z = py7zr.SevenZipFile(io.BytesIO(D), "r")
+            else:
+                z = py7zr.SevenZipFile(apath, "r", **({"mp": True} if mode == "process" else {}))
+            with z:
+                r = z.testzip()
+        except Exception as e:
+            if dmg is None:
+                out.violate(dict(sig, kind="intact-archive-raises", exc=type(e).__name__), observed=repr(e)[:200], expected="testzip() is None")
+            return
+        if dmg is None and r is not None:
+            out.violate(dict(sig, kind="testzip-blames-intact-archive"), observed=str(r)[:80], expected=None)
+        elif dmg is not None and (r is None or folder_of.get(r) != dmg):
+            out.violate(dict(sig, kind="testzip-misses-damaged-folder" if r is None else "testzip-blames-wrong-member"),
+                        observed=None if r is None else {"name": str(r)[:40], "folder": folder_of.get(r)}, expected={"folder": dmg})
 
     def _concurrent(self, apath, model, k, out, sig):
         results = [None] * k
